@@ -6,7 +6,14 @@ Correspondence: the implementation's reward of every row of mixed batches (unequ
 steps, post-finish padding) is sent to Coq together with the instance and the row's action list ONLY; Coq runs the row
 model on the actions, reads the induced schedule off the final state, evaluates the independent specification on it
 (Spec/Schedule.v valid_scheduleb + latest completion time; Spec/FlowShop.v validb + is_makespanb; SMTWTP weighted
-tardiness) and compares  reward = - objective  exactly (all data are integers / dyadic k/64)."""
+tardiness) and compares  reward = - objective  exactly (all data are integers / dyadic k/64).
+stepwise_reward=True (FJSPEnv / JSSPEnv): the dense reward of _step is minus the change of the maximal lower bound; C03's
+statement there is the telescoping identity  max lower bound after reset - sum of the step rewards = makespan
+(Properties/C03_sched.v C03_fjsp_stepwise_rewards_telescope_to_makespan, for any potential); the stream records td['lbs'].max()
+and td['reward'] after every step and the identity is evaluated in python on the implementation's own numbers and in Coq
+against the makespan of the schedule the row model induces (Harness/HC07_fjsp.v check_stepwise).
+Guards: env.get_reward on a batch with an unfinished row must raise (model SchedBatch.b_reward), env.pre_step on a running
+FFSP batch must raise (model Env/SchedGuards.v b_pre_step): probed on clones of the running batches of the streams."""
 import random
 import time
 
@@ -58,7 +65,20 @@ def _evaluate(ctx, res, coll, tag, count=True):
         if count:
             for r in srecs:
                 ctx.seen({"s": [r["due"], r["wgt"], r["ptime"], [a for a, _, _ in r["steps"]]]}, nontrivial=r["n"] >= 2)
+    # guards: a reward asked before every row is finished / pre_step on a running batch must be refused
+    n["fjsp_get_reward_guard_probes"] = C.fjsp_reward_guard_evaluate(ctx, res.get("fjsp_all", []), coll, "cases_C03_sched_rewardguard" + tag, count=count)
+    n["ffsp_pre_step_probes"], _ = G.ffsp_probe_evaluate(ctx, res.get("ffsp_batches", []), "cases_C03_sched_ffsp_prestep" + tag, C.HDR_FFSP,
+                                                          coll.fail, count=count)
+    # stepwise_reward=True
+    n["fjsp_stepwise_rows"] = C.fjsp_stepwise_evaluate(ctx, res.get("stepwise", []), coll, "cases_C03_sched_stepwise" + tag, count=count)
     return n
+
+
+def _timeouts(pyc, coll):
+    """a call that did not return is reported by every sched unit (the C02-type collector is otherwise only counted here)"""
+    for sig, (_, rep) in sorted(pyc.best.items()):
+        if sig.endswith("does not terminate"):
+            coll.fail(sig, rep)
 
 
 def run_unit(ctx, proofs_ok):
@@ -80,13 +100,20 @@ def run_unit(ctx, proofs_ok):
         pyc = C.Collector(ctx, "C03", "sched-c02side")     # C02-type failures met on the way belong to C02; counted, not reported here
         scale = C.budget(ctx, 4, 40)
         res = C.sched_streams(ctx, rng, torch, scale, pyc, "c03")
+        res["stepwise"] = C.stepwise_streams(ctx, random.Random(ctx.seed * 131 + 7), torch, scale, "c03")
         n = _evaluate(ctx, res, coll, "")
-        unit = dict(n, models="Env/FJSP.v, Env/FFSP.v, Env/SMTWTP.v; specs Spec/Schedule.v, Spec/FlowShop.v",
-                    observables="env.get_reward / td['reward'] per row vs the objective recomputed in Coq from (instance, actions)",
+        _timeouts(pyc, coll)
+        unit = dict(n, models="Env/FJSP.v, Env/FFSP.v, Env/SMTWTP.v, Env/SchedStepwise.v, Env/SchedGuards.v; specs Spec/Schedule.v, Spec/FlowShop.v",
+                    observables="env.get_reward / td['reward'] per row vs the objective recomputed in Coq from (instance, actions); "
+                                "stepwise_reward=True: td['lbs'].max() and td['reward'] after every step (L0 - sum r = makespan); whether "
+                                "env.get_reward / env.pre_step raise on unfinished / running batches",
+                    env_call_guard=C.guard.evidence(),
                     c02_type_failures_seen=sorted(pyc.best))
-        if (coll.n_disagree or not proofs_ok or any("C03_sched" in b for b in ctx.broken)) and not coll.best:
+        if (coll.n_disagree or not proofs_ok or any("C03_sched" in b for b in ctx.broken)) and not coll.best and not C.guard.timed_out():
             res2 = C.sched_streams(ctx, rng, torch, 4 * scale, pyc, "c03_search")
+            res2["stepwise"] = C.stepwise_streams(ctx, random.Random(ctx.seed * 137 + 11), torch, 3 * scale, "c03_search")
             n2 = _evaluate(ctx, res2, coll, "_search", count=False)
+            _timeouts(pyc, coll)
             unit["search_rows"] = sum(n2.values())
         unit["concrete_failures"] = coll.flush()
         unit["disagreements"] = coll.n_disagree
